@@ -17,3 +17,8 @@ impl From<std::io::Error> for PreflateError {
     #[verifier::external_body]
     fn from(e: std::io::Error) -> Self { unimplemented!() }
 }
+
+impl std::fmt::Debug for PreflateError {
+    #[verifier::external_body]
+    fn fmt(&self, f: &mut std::fmt::Formatter<'_>) -> std::fmt::Result { unimplemented!() }
+}
